@@ -275,7 +275,7 @@ Definition init_state (max_height : Z) (dbg : bool) : state :=
         (replicate (Z.to_nat (max_height + 1)) []) (max_height + 1) 0
         (replicate (Z.to_nat (max_height + 1)) []) (max_height + 1) 0 0
         NotStabilising 0 [] [] [] [] [] [] STop [] []
-        0 0 0 0 0 0 0 0 dbg [] [] [] 0%nat None.
+        0 0 0 0 0 0 0 0 dbg [] [] [] [] 0%nat None.
 
 (* ------------------------------------------------------------ histories *)
 Notation hnode := nat (only parsing).   (* index into the table of node handles *)
@@ -313,6 +313,8 @@ Inductive op :=
   | OpIsStable
   | OpStats
   | OpSetMaxHeight (n : Z)
+  | OpMemoNew (f : bindfn)                         (* weak_memoize_fn at top level; outer operands are node handles *)
+  | OpMemoCall (m : nat) (key : Z)                 (* call it from top level: yields a node handle *)
   | OpDropNode (n : hnode)                     (* drop the program's handle (Incr clone) *)
   | OpDropVar (x : vid)                        (* drop a public::Var handle *)
   | OpDropExports                              (* drop every node handle that bind closures handed out *)
@@ -351,6 +353,8 @@ Fixpoint handles_tinstr (tbl : list (option nid)) (t : tinstr) : tinstr :=
   | TFold fid init args => TFold fid init (so <$> args)
   | TCutoff tg c => TCutoff (so tg) c
   | TExport o => TExport (so o)
+  | TMemoCall m k => TMemoCall m k
+  | TMemoNew f => TMemoNew (handles_bindfn tbl f)
   | TBind lhs f => TBind (so lhs) (handles_bindfn tbl f)
   end
 with handles_bindfn (tbl : list (option nid)) (f : bindfn) : bindfn :=
@@ -476,6 +480,8 @@ Definition step (fuel : nat) (st : istate) (o : op) : M (istate * out) :=
       ret (st, OutStats (num_created s) (num_changed s) (num_recomputed s) (num_invalidated s)
                         (num_became_necessary s) (num_became_unnecessary s))
   | OpSetMaxHeight n => set_max_height_allowed n ;;; ret (st, OutUnit)
+  | OpMemoNew f => s <- get ;; memo_new (handles_bindfn (handles s) f) ;;; ret (st, OutUnit)
+  | OpMemoCall m key => mk (memo_call fuel m key)
   | OpDropNode h =>
       modify (fun s => s <| handles := <[h := None]> (handles s) |>) ;;; ret (st, OutUnit)
   | OpDropVar x =>
